@@ -6,9 +6,10 @@
 #   VERIF_HARNESS=/tmp/mut_<name>/harness ./check <ID> quick
 # Remove with: rm -rf /tmp/mut_<name>
 set -e
+ROOT=$(cd "$(dirname "$0")/.." && pwd)
 name="$1"; d="/tmp/mut_$name"
 rm -rf "$d"; mkdir -p "$d"
 rsync -a --exclude target --exclude .git /repo/ "$d/repo/"
-rsync -a --exclude target /verif/harness/ "$d/harness/"
+rsync -a --exclude target "$ROOT/harness/" "$d/harness/"
 sed -i "s#path = \"/repo\"#path = \"$d/repo\"#; s#path = \"/repo/parser\"#path = \"$d/repo/parser\"#" "$d/harness/Cargo.toml"
 echo "$d"
